@@ -233,6 +233,10 @@ func (m *monitors) afterTx(g genTx, res txResult, cls int, check bool) {
 			m.fail("C02", 0, fmt.Sprintf("a transaction changed the supply of %s from %s to %s", d, m.supplyBefore[d], now[d]))
 		}
 	}
+	// C13: a transaction that does not carry the signature of the signer its messages name must not execute
+	if cls == 0 && !g.sigOK {
+		m.fail("C13", 0, fmt.Sprintf("a transaction with %s executed although it did not carry a valid signature of the signer its messages name", g.msgs[0].kind))
+	}
 	// C13 / C09: a message took effect although its signer was not the entitled party
 	if cls == 0 && m.entitledBefore == 0 {
 		what := fmt.Sprintf("%s succeeded although its signer (account %d) was not %s", g.msgs[0].kind, g.msgs[0].signer, m.entitledRole)
@@ -840,6 +844,7 @@ func (m *monitors) registryInvariants(where string) {
 			}
 			if old, ok := m.limitBefore[key]; ok && limit > old && limit > maxP {
 				m.fail("C08", 0, fmt.Sprintf("after %s: limit of %s was raised from %d to %d above the maximum in force %d", where, key, old, limit, maxP))
+				m.fail("C16", 0, fmt.Sprintf("after %s: a purchase raised the limit of %s from %d to %d although the maximum in force is %d", where, key, old, limit, maxP))
 			}
 			if old, ok := m.limitBefore[key]; ok && limit < old {
 				m.fail("C08", 0, fmt.Sprintf("after %s: limit of %s dropped from %d to %d", where, key, old, limit))
@@ -891,28 +896,63 @@ func (m *monitors) paramsAndSupply(where string) {
 			m.fail("C17", 0, fmt.Sprintf("after %s: EnterpriseSupply locked %d + unlocked %d != total %d (total locked %s)", where, es.Locked, es.Amount, es.Total, tl))
 		}
 	})
-	// paginated total supply: each denomination exactly once, whatever the page size
-	for _, limit := range []uint64{1, 2, 100} {
-		seen := map[string]int{}
-		var key []byte
-		for page := 0; page < 20; page++ {
-			coins, pr, err := ek.GetTotalSupplyWithLockedNundRemoved(ctx, pageReq(key, limit))
+	// paginated total supply: each denomination exactly once and with the right amount, whatever the page size,
+	// direction and paging mode (key / offset / no pagination at all)
+	checkListing := func(how string, seen map[string]int, amounts map[string]sdk.Int) {
+		for _, d := range denoms {
+			if seen[d] != 1 {
+				m.fail("C17", 0, fmt.Sprintf("after %s: paging total supply (%s) lists %s %d times", where, how, d, seen[d]))
+				continue
+			}
+			want := c.app.BankKeeper.GetSupply(ctx, d).Amount
+			if d == denom {
+				want = want.Sub(tl.Amount)
+			}
+			if !amounts[d].Equal(want) {
+				m.fail("C17", 0, fmt.Sprintf("after %s: total supply listing (%s) reports %s%s, bank supply less locked is %s", where, how, amounts[d], d, want))
+			}
+		}
+	}
+	for _, reverse := range []bool{false, true} {
+		for _, limit := range []uint64{1, 2, 100} {
+			seen, amounts := map[string]int{}, map[string]sdk.Int{}
+			var key []byte
+			for page := 0; page < 20; page++ {
+				coins, pr, err := ek.GetTotalSupplyWithLockedNundRemoved(ctx, &query.PageRequest{Key: key, Limit: limit, Reverse: reverse})
+				if err != nil {
+					break
+				}
+				for _, coin := range coins {
+					seen[coin.Denom]++
+					amounts[coin.Denom] = coin.Amount
+				}
+				if pr == nil || len(pr.NextKey) == 0 {
+					break
+				}
+				key = pr.NextKey
+			}
+			checkListing(fmt.Sprintf("by key, limit %d, reverse=%v", limit, reverse), seen, amounts)
+		}
+		seen, amounts := map[string]int{}, map[string]sdk.Int{}
+		for off := uint64(0); off < uint64(len(denoms)); off += 2 {
+			coins, _, err := ek.GetTotalSupplyWithLockedNundRemoved(ctx, &query.PageRequest{Offset: off, Limit: 2, Reverse: reverse, CountTotal: true})
 			if err != nil {
 				break
 			}
 			for _, coin := range coins {
 				seen[coin.Denom]++
-			}
-			if pr == nil || len(pr.NextKey) == 0 {
-				break
-			}
-			key = pr.NextKey
-		}
-		for _, d := range denoms {
-			if seen[d] != 1 {
-				m.fail("C17", 0, fmt.Sprintf("after %s: paging total supply with limit %d lists %s %d times", where, limit, d, seen[d]))
+				amounts[coin.Denom] = coin.Amount
 			}
 		}
+		checkListing(fmt.Sprintf("by offset, limit 2, reverse=%v", reverse), seen, amounts)
+	}
+	if coins, _, err := ek.GetTotalSupplyWithLockedNundRemoved(ctx, nil); err == nil {
+		seen, amounts := map[string]int{}, map[string]sdk.Int{}
+		for _, coin := range coins {
+			seen[coin.Denom]++
+			amounts[coin.Denom] = coin.Amount
+		}
+		checkListing("no pagination", seen, amounts)
 	}
 }
 
